@@ -15,7 +15,7 @@ class _Alarm(BaseException):
     pass
 
 
-def guarded_run(fn, *args, backend, backend_options=None, seconds=30):
+def guarded_run(fn, *args, backend, backend_options=None, seconds=60):
     def on_alarm(signum, frame):
         raise _Alarm()
 
